@@ -340,14 +340,16 @@ def const_eval(n, env):
     return None
 
 
-def explore_paths(func, start, env, want, edge_ok=None, limit=4000, force=None):
+def explore_paths(func, start, env, want, edge_ok=None, limit=4000, force=None, after_edge=None):
     """enumerate the paths from CFG position `start` to the function's exits under a constant environment that
     is updated along each path (x = constant sets it, any other write to x forgets it) and prunes the branches
     it decides.  Returns a list of paths, each the list of elements e with want(e) in execution order.
     edge_ok(block, successor index) -> False drops paths through that edge; force {element id: (var, value)}
-    pins a variable right after that element (the outcome of a call under study)."""
+    pins a variable right after that element (the outcome of a call under study).  after_edge (block id, successor
+    index): only paths that cross that edge are returned, and only the events behind the crossing."""
     out = []
     count = [0]
+    overflow = [False]
 
     def upd(env, e):
         tgt = None
@@ -390,9 +392,10 @@ def explore_paths(func, start, env, want, edge_ok=None, limit=4000, force=None):
             new[tgt] = v
         return new
 
-    def walk(b, i, env, events, seen):
+    def walk(b, i, env, events, seen, crossed=(after_edge is None)):
         count[0] += 1
         if count[0] > limit:
+            overflow[0] = True
             return
         key = (b, i, tuple(sorted(env.items())))
         if key in seen:
@@ -400,14 +403,15 @@ def explore_paths(func, start, env, want, edge_ok=None, limit=4000, force=None):
         seen = seen | {key}
         blk = func.blocks[b]
         for e in blk.elems[i:]:
-            if want(e):
+            if crossed and want(e):
                 events = events + [e]
             env = upd(env, e)
             if force and e.id in force:
                 env = dict(env)
                 env[force[e.id][0]] = force[e.id][1]     # e.g. "this search found nothing"
             if e.k == 'ReturnStmt':
-                out.append(events)
+                if crossed:
+                    out.append(events)
                 return
         succs = [(k, s) for k, (s, u) in enumerate(blk.all_succs) if s is not None and not u]
         if blk.cond is not None and len(blk.all_succs) == 2:
@@ -415,13 +419,16 @@ def explore_paths(func, start, env, want, edge_ok=None, limit=4000, force=None):
             if v is not None:
                 succs = [(k, s) for k, s in succs if k == (0 if v else 1)]
         if not succs:
-            out.append(events)
+            if crossed:
+                out.append(events)
             return
         for k, s in succs:
             if edge_ok is not None and not edge_ok(blk, k):
                 continue
-            walk(s, 0, env, events, seen)
+            walk(s, 0, env, events, seen, crossed or (after_edge is not None and after_edge == (b, k)))
     walk(start[0], start[1], dict(env), [], frozenset())
+    if overflow[0]:
+        return None if after_edge is not None else out
     return out
 
 
